@@ -1,4 +1,7 @@
 import RichModel.Model.Frames
+import RichModel.Model.FramesStyled
+import RichModel.Model.FramesTitle
+import RichModel.Model.Layout
 import RichModel.Model.FramesTree
 import RichModel.Model.FramesColumns
 import RichModel.Gen.CellWidths
@@ -7,16 +10,20 @@ import RichModel.Drv.Proto
 Driver handlers for property C08 (framing renderables).
 
 `frames_batch <env> <leaves> <q1> <q2> ...` answers `r1~r2~...`:
-  env    = `consoleWidth,ascii,legacy,safe,nocolor,colorsystem`
+  env    = `consoleWidth,ascii,legacy,safe,nocolor,colorsystem,consoleHeight,justify,overflow,no_wrap` (the last three: the
+           ConsoleOptions handed down with the width: `-` = None, justify d/l/c/r/f, overflow f/c/e/i, no_wrap 0/1)
   leaves = leaf oracles joined by `&`; a leaf is `measures@renders@index`:
              measures = `min:max` for w = 0..Wtab joined by `,`
-             renders  = the distinct values of `list(console.render(child, width=w))`, joined by `/`;
-                        a render is segments joined by `|`; a segment is `<code points>;<control 0|1>`
+             renders  = the distinct values of `list(console.render(child, <options of width w>))`, joined by `/`;
+                        a render is segments joined by `|`; a segment is `<code points>;<style>;<control 0|1>`
              index    = for w = 0..Wtab the number of its render, joined by `,`
-  query  = `R,<variant>,<max_width>,<expr>`  (render)  |  `M,<variant>,<max_width>,<expr>`  (Measurement.get)
+  style  = `-` (None) or `setAttributes.attributes.color.bgcolor.link` (colour / link: `-` or an id; ids stand for values compared with ==)
+  query  = `S,<variant>,<max_width>,<expr>`  (render, styles compared)  |  `R,…` (render, text only)  |  `M,…`  (Measurement.get)
+  variant = bitmask 1 zeroWidthChild, 2 ruleRightRepeat, 4 rstripCountsChars, 8 columnsZeroCount, 16 linesPadUnstyled,
+            32 titleAtConsoleWidth, 64 ruleNoTitleEnd
   expr   = prefix tokens joined by `;` (see `parseExpr`)
-  result = `ok:<code points of the concatenated non-control text>#<control segments>` | `m:<min>,<max>` |
-           `err:<PyErr>` | `unmodelled`
+  result = `ok:<runs>#<control segments>` | `m:<min>,<max>` | `err:<Frames.PyErr>` | `unmodelled`; a run is `<style>;<code points>`:
+           adjacent non-control segments of equal style are merged, empty ones dropped (`R`: every style reads `-`).
 A leaf looked up outside 0..Wtab yields a poison value; every query is evaluated under two different
 poisons and answers `unmodelled` when the two results differ (so an out-of-range lookup can never leak
 into a compared answer).
@@ -26,25 +33,65 @@ open RichModel RichModel.Proto RichModel.Frames
 
 def cw : Char → Nat := charWidthT Gen.cellWidths
 
-abbrev Seg := Segment Nat
+/-- The compared fields of `rich.style.Style` (`_set_attributes`, `_attributes`, `_color`, `_bgcolor`, `_link`);
+colours and links are ids of values compared with `==`. -/
+structure FS where
+  setA : Nat
+  attrs : Nat
+  color : Option Nat
+  bg : Option Nat
+  link : Option Nat
+deriving Repr, BEq, DecidableEq
 
-/-- variant bitmask: 1 zeroWidthChild, 2 ruleRightRepeat, 4 rstripCountsChars, 8 columnsZeroCount -/
-def decVariant (s : String) : Variant :=
+/-- `Style.__add__` on those fields (style.py:593-611): the right operand wins wherever it sets something. -/
+def FS.add (a b : FS) : FS :=
+  { setA := a.setA ||| b.setA,
+    attrs := (a.attrs ^^^ (a.attrs &&& b.setA)) ||| (b.attrs &&& b.setA),
+    color := match b.color with | some c => some c | none => a.color,
+    bg := match b.bg with | some c => some c | none => a.bg,
+    link := match b.link with | some c => some c | none => a.link }
+
+def fsOps : SOps FS := { add := FS.add, null := ⟨0, 0, none, none, none⟩ }
+
+abbrev Seg := Segment FS
+
+/-- variant bitmask -/
+def decVariant (s : String) : Frames.Variant :=
   let n := decNat s
   { zeroWidthChild := n % 2 == 1, ruleRightRepeat := n / 2 % 2 == 1, rstripCountsChars := n / 4 % 2 == 1,
     columnsZeroCount := n / 8 % 2 == 1 }
 
+def decSVariant (s : String) : SVariant :=
+  let n := decNat s
+  { base := decVariant s, linesPadUnstyled := n / 16 % 2 == 1, titleAtConsoleWidth := n / 32 % 2 == 1,
+    ruleNoTitleEnd := n / 64 % 2 == 1 }
 
-/-- a title is in the modelled domain when, line feeds replaced by blanks (as the code does), all its characters are simple -/
+/-- a title is in the simple domain when, line feeds replaced by blanks (as the code does), all its characters are simple -/
 def titleOk (t : List Char) : Bool := (t.map (fun c => if c == '\n' then ' ' else c)).all simpleChar
 
-abbrev Ch := Child Nat
+abbrev Ch := Child FS
 
 /-! ### decoding -/
 
+def decOptNat' (s : String) : Option Nat := if s == "-" then none else s.toNat?
+
+def decStyle (s : String) : Option FS :=
+  if s == "-" then none else
+  match s.splitOn "." with
+  | [sa, a, c, b, l] => some ⟨decNat sa, decNat a, decOptNat' c, decOptNat' b, decOptNat' l⟩
+  | _ => none
+
+def decStyleD (s : String) : FS := (decStyle s).getD fsOps.null
+
+def encOpt (o : Option Nat) : String := match o with | none => "-" | some n => toString n
+
+def encStyle : Option FS → String
+  | none => "-"
+  | some s => s!"{s.setA}.{s.attrs}.{encOpt s.color}.{encOpt s.bg}.{encOpt s.link}"
+
 def decSeg (s : String) : Seg :=
   match s.splitOn ";" with
-  | [t, c] => { text := decStr t, style := none, control := decBool c }
+  | [t, st, c] => { text := decStr t, style := decStyle st, control := decBool c }
   | _ => { text := [], style := none, control := false }
 
 def decRender (s : String) : List Seg := if s.isEmpty then [] else (s.splitOn "|").map decSeg
@@ -73,12 +120,26 @@ def decLeaf (k : Nat) (s : String) : Ch :=
 def decLeaves (k : Nat) (s : String) : Array Ch :=
   if s.isEmpty then #[] else ((s.splitOn "&").map (decLeaf k)).toArray
 
-def decEnv (s : String) : Env :=
+def decJustify (s : String) : Option Justify :=
+  if s == "d" then some .default else if s == "l" then some .left else if s == "c" then some .center
+  else if s == "r" then some .right else if s == "f" then some .full else none
+
+def decOverflow (s : String) : Option RichModel.Overflow :=
+  if s == "f" then some .fold else if s == "c" then some .crop else if s == "e" then some .ellipsis
+  else if s == "i" then some .ignore else none
+
+structure EnvX where
+  env : Env
+  height : Int
+  opts : TOpts
+
+def decEnv (s : String) : EnvX :=
   match s.splitOn "," with
-  | [w, a, l, sb, nc, cs] =>
-    { consoleWidth := decNat w, asciiOnly := decBool a, legacyWindows := decBool l, safeBox := decBool sb,
-      noColor := decBool nc, colorSystem := decNat cs }
-  | _ => { consoleWidth := 80 }
+  | [w, a, l, sb, nc, cs, h, j, ov, nw] =>
+    { env := { consoleWidth := decNat w, asciiOnly := decBool a, legacyWindows := decBool l, safeBox := decBool sb,
+               noColor := decBool nc, colorSystem := decNat cs }, height := decInt h,
+      opts := { justify := decJustify j, overflow := decOverflow ov, noWrap := if nw == "-" then some false else some (nw == "1") } }
+  | _ => { env := { consoleWidth := 80 }, height := 25, opts := {} }
 
 def decOptInt (s : String) : Option Int := if s == "-" then none else s.toInt?
 def decOptBool (s : String) : Option Bool := if s == "-" then none else some (s == "1")
@@ -89,14 +150,17 @@ def decAlign (s : String) : AlignM := if s == "l" then .left else if s == "r" th
 mutual
 inductive Expr where
   | leaf (i : Nat)
-  | pad (dims : List Nat) (expand : Bool) (e : Expr)
-  | panel (o : PanelOpts) (e : Expr)
-  | align (o : AlignOpts) (e : Expr)
+  | pad (style : FS) (dims : List Nat) (expand : Bool) (e : Expr)
+  | panel (o : PanelOpts) (style bstyle : FS) (ttl : Option (Bool × Text FS)) (e : Expr)
+  | align (o : AlignOpts) (style : Option FS) (e : Expr)
   | constrain (w : Option Int) (e : Expr)
-  | styled (e : Expr)
+  | styled (style : FS) (e : Expr)
+  | vcenter (style : Option FS) (e : Expr)
   | rule (o : RuleOpts)
+  | rulet (o : RuleOptsT FS)
   | bar (o : BarOpts)
   | pbar (o : ProgressOpts)
+  | cols (o : Layout.ColsOpts) (items : List Expr)
   | tree (t : TNode)
 inductive TNode where
   | mk (label : Expr) (gs : GStyle) (expanded : Bool) (children : List TNode)
@@ -107,30 +171,75 @@ def takeNats : Nat → List String → Option (List Nat × List String)
   | n+1, t :: ts => (takeNats n ts).map (fun (l, r) => (decNat t :: l, r))
   | _+1, [] => none
 
+def takeSpans : Nat → List String → Option (List (Span FS) × List String)
+  | 0, ts => some ([], ts)
+  | n+1, a :: b :: st :: ts => (takeSpans n ts).map (fun (l, r) => (⟨decInt a, decInt b, decStyleD st⟩ :: l, r))
+  | _+1, _ => none
+
+/-- a `Text`: `plain;base style;nspans;(start;stop;style)*;justify;overflow;no_wrap;end;tab_size` -/
+def parseText : List String → Option (Text FS × List String)
+  | plain :: base :: n :: ts => do
+    let (spans, ts) ← takeSpans (decNat n) ts
+    match ts with
+    | j :: ov :: nw :: e :: tab :: ts =>
+      let pl := decStr plain
+      some ({ plain := pl, length := pl.length, spans := spans, style := decStyleD base, justify := decJustify j,
+              overflow := decOverflow ov, noWrap := decOptBool nw, endStr := decStr e, tabSize := decOptNat' tab }, ts)
+    | _ => none
+  | _ => none
+
 mutual
 partial def parseExpr : List String → Option (Expr × List String)
   | "L" :: i :: ts => some (.leaf (decNat i), ts)
   | "TREE" :: ts => do
     let (t, ts) ← parseNode ts
     pure (.tree t, ts)
-  | "PAD" :: ex :: n :: ts => do
+  | "PAD" :: st :: ex :: n :: ts => do
     let (dims, ts) ← takeNats (decNat n) ts
     let (e, ts) ← parseExpr ts
-    pure (.pad dims (decBool ex) e, ts)
-  | "PANEL" :: box :: title :: ta :: sb :: ex :: wd :: n :: ts => do
+    pure (.pad (decStyleD st) dims (decBool ex) e, ts)
+  | "PANEL" :: st :: bst :: box :: "S" :: title :: ta :: sb :: ex :: wd :: n :: ts => do
     let (dims, ts) ← takeNats (decNat n) ts
     let (e, ts) ← parseExpr ts
     pure (.panel { box := decNat box, title := decStr title, titleAlign := decAlign ta, safeBox := decOptBool sb,
-                   expand := decBool ex, width := decOptInt wd, padding := dims } e, ts)
-  | "ALIGN" :: a :: p :: wd :: ts => do
+                   expand := decBool ex, width := decOptInt wd, padding := dims } (decStyleD st) (decStyleD bst) none e, ts)
+  | "PANEL" :: st :: bst :: box :: "T" :: truthy :: ts => do
+    let (tt, ts) ← parseText ts
+    match ts with
+    | ta :: sb :: ex :: wd :: n :: ts =>
+      let (dims, ts) ← takeNats (decNat n) ts
+      let (e, ts) ← parseExpr ts
+      pure (.panel { box := decNat box, title := [], titleAlign := decAlign ta, safeBox := decOptBool sb,
+                     expand := decBool ex, width := decOptInt wd, padding := dims } (decStyleD st) (decStyleD bst)
+                   (some (decBool truthy, tt)) e, ts)
+    | _ => none
+  | "ALIGN" :: st :: a :: p :: wd :: ts => do
     let (e, ts) ← parseExpr ts
-    pure (.align { align := decAlign a, pad := decBool p, width := decOptInt wd } e, ts)
+    pure (.align { align := decAlign a, pad := decBool p, width := decOptInt wd } (decStyle st) e, ts)
   | "CONSTRAIN" :: wd :: ts => do
     let (e, ts) ← parseExpr ts
     pure (.constrain (decOptInt wd) e, ts)
-  | "STYLED" :: ts => do
+  | "STYLED" :: st :: ts => do
     let (e, ts) ← parseExpr ts
-    pure (.styled e, ts)
+    pure (.styled (decStyleD st) e, ts)
+  | "VC" :: st :: ts => do
+    let (e, ts) ← parseExpr ts
+    pure (.vcenter (decStyle st) e, ts)
+  | "COLS" :: n :: ts => do
+    let (dims, ts) ← takeNats (decNat n) ts
+    match ts with
+    | wd :: eq :: cf :: rtl :: ex :: al :: k :: ts =>
+      let (items, ts) ← parseExprs (decNat k) ts
+      pure (.cols { lay := { padding := dims, width := decOptInt wd, equal := decBool eq, columnFirst := decBool cf, rightToLeft := decBool rtl },
+                    expand := decBool ex, align := if al == "-" then none else some (decAlign al) } items, ts)
+    | _ => none
+  | "RULET" :: truthy :: ts => do
+    let (tt, ts) ← parseText ts
+    match ts with
+    | chars :: e :: a :: st :: ts =>
+      some (.rulet { title := if decBool truthy then some tt else none, characters := decStr chars, endS := decStr e,
+                     align := decAlign a, style := decStyleD st }, ts)
+    | _ => none
   | "RULE" :: title :: chars :: e :: a :: ts =>
     some (.rule { title := decStr title, characters := decStr chars, endS := decStr e, align := decAlign a }, ts)
   | "BAR" :: sn :: sd :: bn :: bd :: en :: ed :: wd :: ts =>
@@ -140,6 +249,12 @@ partial def parseExpr : List String → Option (Expr × List String)
     some (.pbar { total := ⟨decInt tn, decNat td⟩, completed := ⟨decInt cn, decNat cd⟩, width := decOptInt wd,
                   pulse := decBool pu, time := ⟨decInt tmn, decNat tmd⟩ }, ts)
   | _ => none
+partial def parseExprs : Nat → List String → Option (List Expr × List String)
+  | 0, ts => some ([], ts)
+  | n+1, ts => do
+    let (e, ts) ← parseExpr ts
+    let (rest, ts) ← parseExprs n ts
+    pure (e :: rest, ts)
 partial def parseNode : List String → Option (TNode × List String)
   | "N" :: b :: u :: ex :: k :: ts => do
     let (label, ts) ← parseExpr ts
@@ -157,14 +272,46 @@ end
 /-- result of evaluating a frame at one width -/
 inductive Res where
   | ok (segs : List Seg)
-  | err (e : PyErr)
+  | err (e : Frames.PyErr)
   | unmodelled
 
 structure Ctx where
   env : Env
-  v : Variant
+  height : Int
+  opts : TOpts
+  sv : SVariant
   leaves : Array Ch
   poison : Nat
+
+def Ctx.v (c : Ctx) : Frames.Variant := c.sv.base
+
+/-- the composition layer (Model/Layout.lean, C01) works on unstyled `Segment Nat`: styles are erased on the way in and out -/
+def toNatSeg (g : Seg) : Segment Nat := { text := g.text, style := none, control := g.control }
+def ofNatSeg (g : Segment Nat) : Seg := { text := g.text, style := none, control := g.control }
+def toNatCh (c : Ch) : Child Nat := { measure := c.measure, render := fun w => (c.render w).map toNatSeg }
+
+def Ctx.lcfg (c : Ctx) : Layout.Cfg :=
+  { cw := cw, env := c.env, v := c.sv.base, wv := Wrap.WVariant.fixed c.sv.base.rstripCountsChars, fl := Flags.allRepaired,
+    poison := [toNatSeg (poisonSeg c.poison)] }
+
+def Ctx.lopts (c : Ctx) : Layout.Opts := { justify := c.opts.justify, overflow := c.opts.overflow, noWrap := c.opts.noWrap }
+
+def Ctx.tcfg (c : Ctx) : TCfg FS := { cw := cw, A := fsOps, wv := Wrap.WVariant.fixed c.v.rstripCountsChars }
+
+/-- the title of a panel: in the simple domain (`ttl = none`) or as a `Text`; the outer `none` = outside the model
+(`expand_tabs` raising) -/
+def panelTitleO (c : Ctx) (o : PanelOpts) (ttl : Option (Bool × Text FS)) : Option (Option (TitleO FS) × Option (Int → Int)) :=
+  match ttl with
+  | none =>
+    some (simpleTitle cw c.v o.title o.titleAlign,
+      match panelTitle o.title with
+      | none => none
+      | some t => some (fun avail => (textMeasureSimple cw t avail).maximum))
+  | some (truthy, tt) =>
+    match panelTitleText c.tcfg.wv.text truthy tt with
+    | .error _ => none
+    | .ok none => some (none, none)
+    | .ok (some t) => some (some (textTitleO c.tcfg o.titleAlign t), some (fun avail => (textMeasureG cw t avail).maximum))
 
 -- nested position: static errors / unmodelled sub-frames make the whole query unmodelled
 mutual
@@ -173,51 +320,67 @@ partial def toChild (c : Ctx) : Expr → Option Ch
   | .tree t => do
     let root ← toTree c t
     some (treeChild cw c.env root)
-  | .pad dims ex e => do
+  | .pad st dims ex e => do
     let ch ← toChild c e
     match unpackPad dims with
-    | .ok p => some (paddingChild cw c.v p ex ch)
+    | .ok p => some (paddingChildS cw fsOps c.sv st p ex ch)
     | .error _ => none
-  | .panel o e => do
+  | .panel o st bst ttl e => do
     let ch ← toChild c e
     match unpackPad o.padding with
     | .error _ => none
     | .ok _ =>
-      if !(titleOk o.title) then none else
-      if (o.width.getD 0) < 0 then none else
+      if ttl.isNone && !(titleOk o.title) then none else
+      let (tO, tM) ← panelTitleO c o ttl
       some (asChild
-        (fun w => match panelConsole cw c.env c.v o ch w with
+        (fun w => match panelConsoleS cw fsOps c.env c.sv o st bst tO ch w with
           | .ok (some s) => s
           | _ => [poisonSeg c.poison])
-        (fun w => match panelRichMeasure cw o ch w with
+        (fun w => match panelRichMeasureS o tM ch w with
           | .ok m => m
           | .error _ => poisonMeasure c.poison))
-  | .align o e => do
+  | .align o st e => do
     let ch ← toChild c e
-    some (alignChild cw c.env c.v o ch)
+    some (alignChildS cw fsOps c.env c.sv o st ch)
   | .constrain w e => do
     let ch ← toChild c e
     some (constrainChild w ch)
-  | .styled e => do
+  | .styled st e => do
     let ch ← toChild c e
-    some (styledChild ch)
+    some (styledChildS fsOps st ch)
+  | .vcenter st e => do
+    let ch ← toChild c e
+    some (verticalCenterChildS cw c.height st ch)
   | .rule o =>
     match ruleInit cw o with
     | .error _ => none
     | .ok o =>
       if !(titleOk o.title && o.characters.all simpleChar) then none else
       some (asChild
-        (fun w => match ruleConsole cw c.env c.v o w with
+        (fun w => match (let pe := ruleTextS cw c.env c.sv o w; textConsoleSimple (σ := FS) cw c.v pe.1 pe.2 w) with
           | some s => s
           | none => [poisonSeg c.poison])
         (fun w => ⟨0, w⟩))   -- Rule has no __rich_measure__: Measurement.get gives (0, max_width)
+  | .cols o items => do
+    let chs ← items.mapM (toChild c)
+    if (o.lay.width.getD 0) < 0 then none else
+    some (asChild
+      (fun w => if w < 1 then [] else (Layout.columnsConsole c.lcfg o c.lopts (chs.map toNatCh) w.toNat).map ofNatSeg)
+      (fun w => ⟨0, w⟩))   -- Columns has no __rich_measure__
+  | .rulet o =>
+    if cellLen cw o.characters < 1 then none else
+    some (asChild
+      (fun w => match ruleConsoleT c.tcfg c.env c.sv o c.opts w with
+        | .ok s => s
+        | .error _ => [poisonSeg c.poison])
+      (fun w => ⟨0, w⟩))
   | .bar o =>
-    if o.size.den == 0 || o.beginV.den == 0 || o.endV.den == 0 || (o.width.getD 0) < 0 then none else
+    if o.size.den == 0 || o.beginV.den == 0 || o.endV.den == 0 then none else
     some (asChild (barConsole (barInit o)) (barRichMeasure o.width))
   | .pbar o =>
-    if o.total.den == 0 || o.completed.den == 0 || o.time.den == 0 || (o.width.getD 0) < 0 then none else
+    if o.total.den == 0 || o.completed.den == 0 || o.time.den == 0 then none else
     some (asChild (progressConsole c.env o) (barRichMeasure o.width))
-partial def toTree (c : Ctx) : TNode → Option (TreeN Nat)
+partial def toTree (c : Ctx) : TNode → Option (TreeN FS)
   | .mk label gs ex children => do
     let l ← toChild c label
     let cs ← children.mapM (toTree c)
@@ -227,23 +390,31 @@ end
 /-- top level: `list(console.render(obj, options.update(width=w)))` -/
 def renderTop (c : Ctx) (e : Expr) (w : Int) : Res :=
   match e with
-  | .panel o e' =>
+  | .panel o st bst ttl e' =>
     match toChild c e' with
     | none => .unmodelled
     | some ch =>
       if w < 1 then .ok [] else
-      if !(titleOk o.title) || (o.width.getD 0) < 0 then .unmodelled else
-      match panelConsole cw c.env c.v o ch w with
-      | .error er => .err er
-      | .ok none => .unmodelled
-      | .ok (some s) => .ok s
+      if ttl.isNone && !(titleOk o.title) then .unmodelled else
+      match panelTitleO c o ttl with
+      | none => .unmodelled
+      | some (tO, _) =>
+        match panelConsoleS cw fsOps c.env c.sv o st bst tO ch w with
+        | .error er => .err er
+        | .ok none => .unmodelled
+        | .ok (some s) => .ok s
+  | .rulet o =>
+    if cellLen cw o.characters < 1 then .err .valueError else
+    match ruleConsoleT c.tcfg c.env c.sv o c.opts w with
+    | .ok s => .ok s
+    | .error _ => .unmodelled
   | .rule o =>
     match ruleInit cw o with
     | .error er => .err er
     | .ok o =>
       if w < 1 then .ok [] else
       if !(titleOk o.title && o.characters.all simpleChar) then .unmodelled else
-      match ruleConsole cw c.env c.v o w with
+      match (let pe := ruleTextS cw c.env c.sv o w; textConsoleSimple (σ := FS) cw c.v pe.1 pe.2 w) with
       | none => .unmodelled
       | some s => .ok s
   | e =>
@@ -257,29 +428,42 @@ def measureTop (c : Ctx) (e : Expr) (w : Int) : Option Measurement :=
     match ruleInit cw o with
     | .error _ => none
     | .ok _ => some (Measurement.getPost w none)
+  | .rulet o => if cellLen cw o.characters < 1 then none else some (Measurement.getPost w none)
   | e => (toChild c e).map (fun ch => ch.measureAt w)
 
-def errName : PyErr → String
+def errName : Frames.PyErr → String
   | .valueError => "ValueError"
   | .zeroDivision => "ZeroDivisionError"
   | .indexError => "IndexError"
 
-def encRes : Res → String
+/-- adjacent non-control segments of equal style merged, empty ones dropped -/
+def runs (styled : Bool) : List Seg → List (Option FS × List Char)
+  | [] => []
+  | s :: rest =>
+    if s.control || s.text.isEmpty then runs styled rest
+    else
+      let st := if styled then s.style else none
+      match runs styled rest with
+      | (st', t) :: more => if st == st' then (st, s.text ++ t) :: more else (st, s.text) :: (st', t) :: more
+      | [] => [(st, s.text)]
+
+def encRes (styled : Bool) : Res → String
   | .unmodelled => "unmodelled"
   | .err e => "err:" ++ errName e
   | .ok segs =>
-    let text := (segs.filter (fun s => !s.control)).flatMap (·.text)
+    let rs := (runs styled segs).map (fun r => encStyle r.1 ++ ";" ++ encStr r.2)
     let ctl := (segs.filter (·.control)).map (fun s => encStr s.text)
-    "ok:" ++ encStr text ++ "#" ++ ",".intercalate ctl
+    "ok:" ++ "|".intercalate rs ++ "#" ++ ",".intercalate ctl
 
-def answerQuery (env : Env) (l1 l2 : Array Ch) (q : String) : String :=
+def answerQuery (env : EnvX) (l1 l2 : Array Ch) (q : String) : String :=
   match q.splitOn "," with
   | [kind, v, w, ex] =>
     match parseExpr (ex.splitOn ";") with
     | some (e, []) =>
       let run (k : Nat) : String :=
-        let c : Ctx := { env := env, v := decVariant v, leaves := (if k == 1 then l1 else l2), poison := k }
-        if kind == "R" then encRes (renderTop c e (decInt w))
+        let c : Ctx := { env := env.env, height := env.height, opts := env.opts, sv := decSVariant v, leaves := (if k == 1 then l1 else l2), poison := k }
+        if kind == "R" then encRes false (renderTop c e (decInt w))
+        else if kind == "S" then encRes true (renderTop c e (decInt w))
         else match measureTop c e (decInt w) with
           | some m => s!"m:{m.minimum},{m.maximum}"
           | none => "unmodelled"
@@ -306,14 +490,14 @@ def handlers : List (String × (List String → String)) := [
   -- frames_columns <variant bitmask> <padding n:a,b..> <width|-> <equal> <column_first> <right_to_left> <measured maxima, comma separated> <max_width>
   ("frames_columns", fun a => match a with
     | [vb, pad, wd, eq, cf, rtl, ms, mw] =>
-      let v : Variant := decVariant vb
+      let v : Frames.Variant := decVariant vb
       let dims := match pad.splitOn ":" with
         | [n, body] => if decNat n == 0 then [] else (body.splitOn ",").map decNat
         | _ => []
       let measured := if ms.isEmpty then [] else (ms.splitOn ",").map decInt
       let o : ColumnsOpts := { padding := dims, width := decOptInt wd, equal := decBool eq, columnFirst := decBool cf,
                                rightToLeft := decBool rtl }
-      if (o.width.getD 0) < 0 || decInt mw < 1 then "unmodelled" else
+      if ((o.width.getD 0) < 0 && v.columnsZeroCount) || decInt mw < 1 then "unmodelled" else
       match columnsLayout v o measured (decInt mw) with
       | .error e => "err:" ++ errName e
       | .ok none => "none"
